@@ -3,7 +3,7 @@ import NomtModel.Props.C02_WalkReconUpdate
 # C16 — the diff of the pages an updating walker hands out when it entered reconstructed pages
 
 `T16_walker_diff_names_changes_partial` for page sets with reconstructed pages on the way: it is the last clause of
-`T2_walker_root_reconstructed_partial` — the diff of every page handed out names every slot that differs from the page it
+`T2_walker_root_reconstructed` — the diff of every page handed out names every slot that differs from the page it
 started from (for a reconstructed page: the reconstructed page of the page set; the diff handed out additionally contains the
 reconstruction diff, `T16_promoted_page_diff`).
 -/
@@ -12,22 +12,20 @@ open Nomt Nomt.Walker Nomt.TriePos
 
 variable {Node VH : Type} [DecidableEq Node] [DecidableEq VH] (H : Hasher Node VH)
 
-/-- **T16_walker_diff_names_changes over reconstructed pages (narrowed to one guard)** -/
-theorem T16_walker_diff_names_changes_reconstructed_partial (hs : H.Sound) (ps : PageSet Node) (root : Node)
+/-- **T16_walker_diff_names_changes over reconstructed pages**: the walk does not panic and the diff of every page handed out
+names every slot that differs from the page it started from -/
+theorem T16_walker_diff_names_changes_reconstructed (hs : H.Sound) (ps : PageSet Node) (root : Node)
     {S S' : List (Key × VH)} (hS : KeysOK S) (hS' : KeysOK S') {steps : List (Step VH)} (hso : ScriptOK S S' steps)
     (hps : G.PSOK ps steps) (hrep : Represents H ps root S) (inhibit : Bool) :
-    (∃ w' r pages, (Walker.start root inhibit).runM H ps steps = .ok w' ∧ w'.conclude H = .ok (.root r pages) ∧
+    ∃ w' r pages, (Walker.start root inhibit).runM H ps steps = .ok w' ∧ w'.conclude H = .ok (.root r pages) ∧
       ∀ o ∈ pages, ∃ P pg d b base, o = .updated P pg d b ∧
         (base = ps.fresh P ∨ ∃ e og, ps.get P = some (⟨base, e⟩, og)) ∧
-        ∀ i, i < 126 → pg.nodes.getD i H.term ≠ base.getD i H.term → d.changed i = true) ∨
-    (Walker.start root inhibit).runM H ps steps = .panic G.GUARD ∨
-    (∃ w', (Walker.start root inhibit).runM H ps steps = .ok w' ∧ w'.conclude H = .panic G.GUARD) := by
-  rcases C02.T2_walker_root_reconstructed_partial H hs ps root hS hS' hso hps hrep inhibit with ⟨w', pages, h1, h2, h3⟩ | h
-  · refine Or.inl ⟨w', _, pages, h1, h2, ?_⟩
-    intro o ho
-    obtain ⟨P, pg, d, b, e, _, _, base, hb, hd⟩ := h3 o ho
-    exact ⟨P, pg, d, b, base, e, hb, hd⟩
-  · exact Or.inr h
+        ∀ i, i < 126 → pg.nodes.getD i H.term ≠ base.getD i H.term → d.changed i = true := by
+  obtain ⟨w', pages, h1, h2, h3⟩ := C02.T2_walker_root_reconstructed H hs ps root hS hS' hso hps hrep inhibit
+  refine ⟨w', _, pages, h1, h2, ?_⟩
+  intro o ho
+  obtain ⟨P, pg, d, b, e, _, _, base, hb, hd⟩ := h3 o ho
+  exact ⟨P, pg, d, b, base, e, hb, hd⟩
 
 example : G.PSOK Ex2.ps2r Ex2.steps2 ∧ Represents TH Ex2.ps2r Ex2.root2 Ex2.S2 := ⟨Ex2.psok2r, Ex2.rep2r⟩
 
